@@ -1,2 +1,94 @@
-(* C07 - placeholder while the correspondence is being validated. *)
-From TT Require Import Lib.Base Spec.C07 Corr.C07.
+(* C07 - mismatches are always describable; text_repr output evaluates back; assertThat /
+   assert_that / expectThat report faithfully (PARTIAL, see the two gaps below).
+   Only statements; every proof is `exact <lemma of Proof/C07*.v>`. *)
+From Coq Require Import String.
+From TT Require Import Lib.Base Model.TextRepr Model.Assertions Spec.C07 Corr.C07
+     Proof.C07Repr Proof.C07Names Proof.C07.
+
+(* The model meets the whole statement.  Gap 1 (hypothesis [agree]): for a text_repr case the two
+   models of text_repr - the literal transliteration text_repr_lit and the per-character
+   text_repr_tok - must give the same output; this is computed by the model on every case of the
+   correspondence (the model's observation is OBad otherwise, which disagrees with any
+   implementation), it is not proved.  Gap 2: for IDesc the model's str()/describe()/get_details()
+   are total by construction; what is checked is the implementation, by sampling. *)
+Theorem C07_holds : forall i : input, wf i -> agree i = true -> spec_okb i (model i) = true.
+Proof. exact model_meets_spec. Qed.
+Print Assumptions C07_holds.
+
+Theorem C07_statement : forall i o, spec_okb i o = true -> Spec i o.
+Proof. exact spec_okb_sound. Qed.
+Print Assumptions C07_statement.
+
+Theorem C07_obs_eqb : forall a b, obs_eqb a b = true <-> alpha a = alpha b.
+Proof. exact obs_eqb_spec. Qed.
+Print Assumptions C07_obs_eqb.
+
+(* Full statement: eval_lit (text_repr_lit isb np s ml) = Some (isb, s).  Proved: the same for the
+   per-character model, for every str/bytes s, every multiline setting and every isprintable
+   predicate; and for repr itself, which is text_repr_lit whenever the multiline branch is not taken.
+   Missing: text_repr_lit = text_repr_tok on the multiline branch (str.replace never matches across
+   an escape boundary; the find/insert loop escapes the first k-2 quotes of every run of k >= 3). *)
+Theorem C07_text_repr_roundtrip_partial : forall isb nonprint s ml,
+  Forall (valid isb) s -> eval_lit (text_repr_tok isb nonprint s ml) = Some (isb, s).
+Proof. exact tok_roundtrip. Qed.
+Print Assumptions C07_text_repr_roundtrip_partial.
+
+Theorem C07_repr_roundtrip : forall isb nonprint s,
+  Forall (valid isb) s -> eval_lit (repr isb nonprint s) = Some (isb, s).
+Proof. exact repr_roundtrip. Qed.
+Print Assumptions C07_repr_roundtrip.
+
+Theorem C07_text_repr_single_line : forall isb nonprint s ml,
+  Forall (valid isb) s -> match ml with Some b => b | None => memN NL s end = false ->
+  eval_lit (text_repr_lit isb nonprint s ml) = Some (isb, s).
+Proof. exact lit_single_line. Qed.
+Print Assumptions C07_text_repr_single_line.
+
+(* the unique-name loop of addDetailUniqueName terminates within its fuel (pigeonhole) with a name
+   that is not in use and is the requested one or the requested one with a suffix *)
+Theorem C07_unique_fresh : forall existing base,
+  exists r, unique_name existing base = Some r /\ ~ In r existing /\ IsCand r base.
+Proof. exact unique_fresh. Qed.
+Print Assumptions C07_unique_fresh.
+
+(* assertThat / assert_that raise exactly when match() returns a mismatch, expectThat never raises,
+   nothing runs after a raise; tearDown and cleanups run before the outcome; the outcome is a failure
+   iff some executed statement mismatched; the details are the old ones followed by fresh-named ones *)
+Theorem C07_run_test : forall (pre : list detail) (steps : list step), NoDup (map fst pre) ->
+  exists tail,
+    run_test pre steps = {| r_raised := exp_raised steps; r_after_ran := true;
+                            r_outcome := if any_mismatch steps then Failure else Success;
+                            r_details := Some (pre ++ tail)%list |}
+    /\ Inv (pre ++ flat_map requests_of_step (exec steps))%list (pre ++ tail)%list.
+Proof. exact run_test_spec. Qed.
+Print Assumptions C07_run_test.
+
+Theorem C07_assert_iff : forall steps k b, nth_error (exp_raised steps) k = Some b ->
+  exists s, nth_error steps k = Some s /\ b = is_assert (s_kind s) && is_some (s_mis s)
+            /\ (b = true -> List.length (exp_raised steps) = S k).
+Proof. exact exp_raised_nth. Qed.
+Print Assumptions C07_assert_iff.
+
+(* a body of expectThat statements only: every statement runs, none raises *)
+Theorem C07_expect : forall steps, existsb raises_step steps = false ->
+  exp_raised steps = map (fun _ => false) steps /\ exec steps = steps.
+Proof. exact exp_raised_expect_only. Qed.
+Print Assumptions C07_expect.
+
+(* non-vacuity *)
+Example C07_example :
+  let np := fun c => N.eqb c 133 in
+  (* a'''b with a newline and NEL: three quotes, the first escaped *)
+  text_repr_tok false np [97; 39; 39; 39; 98; 10; 133]%N None
+  = [39; 39; 39; 92; 10; 97; 92; 39; 39; 39; 98; 10; 92; 120; 56; 53; 39; 39; 39]%N
+  /\ text_repr_lit false np [97; 39; 39; 39; 98; 10; 133]%N None
+     = text_repr_tok false np [97; 39; 39; 39; 98; 10; 133]%N None
+  /\ eval_lit (text_repr_lit false np [97; 39; 39; 39; 98; 10; 133]%N None) = Some (false, [97; 39; 39; 39; 98; 10; 133]%N)
+  /\ r_details (run_test [("a", 1)]%string
+                  [{| s_kind := ExpectThat; s_mis := Some [("a", 2); ("a-1", 3)]%string |};
+                   {| s_kind := AssertThat; s_mis := Some [("a", 4)]%string |};
+                   {| s_kind := ExpectThat; s_mis := Some [("b", 5)]%string |}])
+     = Some [("a", 1); ("a-1", 2); ("a-1-1", 3); ("Failed expectation", 0); ("a-2", 4)]%string
+  /\ r_outcome (run_test [] [{| s_kind := ExpectThat; s_mis := Some [] |}; {| s_kind := AssertThat; s_mis := None |}]) = Failure
+  /\ r_raised (run_test [] [{| s_kind := ExpectThat; s_mis := Some [] |}; {| s_kind := AssertThat; s_mis := None |}]) = [false; false].
+Proof. vm_compute. repeat split. Qed.
